@@ -690,9 +690,19 @@ def make_cert(common_names=('alice',), eku='client'):
     if _KEY is None:
         _KEY = ec.generate_private_key(ec.SECP256R1())
     name_attrs = [x509.NameAttribute(NameOID.ORGANIZATION_NAME, u'kv')]
+    joined = [cn[1:] for cn in common_names if cn.startswith('+')]
     for cn in common_names:
-        name_attrs.append(x509.NameAttribute(NameOID.COMMON_NAME, cn))
-    subject = x509.Name(name_attrs)
+        if not cn.startswith('+'):
+            name_attrs.append(x509.NameAttribute(NameOID.COMMON_NAME, cn))
+    if joined:
+        # names given as '+name' share ONE multi-valued relative distinguished name (CN=a+CN=b), together with an
+        # organisational unit so that the common names are not the first attribute of that RDN either
+        rdns = [x509.RelativeDistinguishedName([a]) for a in name_attrs]
+        rdns.append(x509.RelativeDistinguishedName(
+            [x509.NameAttribute(NameOID.COMMON_NAME, cn) for cn in joined]))
+        subject = x509.Name(rdns)
+    else:
+        subject = x509.Name(name_attrs)
     b = x509.CertificateBuilder().subject_name(subject).issuer_name(subject).public_key(
         _KEY.public_key()).serial_number(1000 + len(_CERT_CACHE)).not_valid_before(
         datetime.datetime(2020, 1, 1)).not_valid_after(datetime.datetime(2040, 1, 1))
